@@ -71,6 +71,7 @@ class IceFabric:
         # TurnClientMixin.send_data awaits a channel bind / refresh); {"node": "A", "nth": 7, "dur": 0.05} or None
         self.turn = None
         self.turn_suspensions = 0
+        self.holds = {}                 # (src node, dst node) -> Link.hold specification
         self.heal_at = None
         self.classify = classify_datagram
         self.serial = 0
@@ -114,6 +115,7 @@ class IceFabric:
         link = Link(self.loop, self.choices, "net.%s2%s.%d" % (src.node, dst.node, src.serial), dst._on_datagram_link,
                     self.context(dst.node), self.profiles.get(key, BENIGN), heal_at=self.heal_at,
                     classify=self.classify, class_profiles=self.class_profiles.get(key))
+        link.hold = self.holds.get(key)
         if self.taps:
             def tap(event, data, info, _s=src.node, _d=dst.node):
                 for t in self.taps:
